@@ -26,6 +26,8 @@ unnoticed, and so that the two repairs the model anticipates flip the model auto
   gen_lifecycle_parent_is_span   the macro builds `Event::new_child_of($id, meta, ..)` with meta = $span.metadata()
   gen_timing_off_without_time    Subscriber::without_time() also switches fmt_span's timing off (the model ties
                         time.busy / time.idle to the presence of a timer)
+  gen_on_record_atomic  fmt_subscriber.rs on_record takes `span.extensions_mut()` BEFORE it reads the stored fields and keeps
+                        it until add_fields has stored the merged text (concurrent record calls on one span are serialised)
   gen_escape_table      serde_json's ESCAPE table (src/ser.rs of the version in the repository's Cargo.lock, read from
                         the cargo registry): 256 entries, 0 = not escaped, else the letter after the backslash
                         (117 = 'u' for the backslash-u-00XX form); the model's escape_byte is proved equal to it
@@ -182,6 +184,19 @@ def main(repo, _out=None):
     if not re.search(r"self\.fmt_span\.fmt_timing\s*&&\s*self\.fmt_span\.trace_close\(\)", ns):
         unrec.append("on_new_span: Timings are not inserted exactly when fmt_timing && trace_close()")
 
+    # ---- on_record: is the span's extensions WRITE lock held from before the stored fields are read until after the merged
+    #      text is stored (add_fields assigns it in place)?  (the model's `atomic`, Fmt/JsonConc.v)
+    orb = norm((sfn.get("on_record") or ("", ""))[1] or "")
+    on_record_atomic = bool(re.search(
+        r'^\{? ?let span = ctx\.span\(id\)\.expect\("[^"]*"\); let mut extensions = span\.extensions_mut\(\); '
+        r'if let Some\(fields\) = extensions\.get_mut::<FormattedFields<N>>\(\) \{ let _ = self\.fmt_fields\.add_fields\(fields, values\); return; \}', orb)) \
+        and orb.count("extensions_mut()") == 1 and ".extensions()" not in orb
+    if not on_record_atomic:
+        unrec.append("on_record: `span.extensions_mut()` is not held across `add_fields(fields, values)` on the stored FormattedFields (shape not recognised)")
+    afn_assign = "current.fields = new;" in afn
+    if not afn_assign:
+        unrec.append("add_fields: the merged text is not assigned in place (`current.fields = new`)")
+
     # ---- serde_json's escape table (the dependency the model's render_string mirrors)
     esc_table = []
     ver = None
@@ -265,6 +280,7 @@ def main(repo, _out=None):
         "Definition gen_lifecycle_parent_is_span : bool := %s." % b(life_parent),
         "Definition gen_timing_off_without_time : bool := %s." % b(timing_off),
         "Definition gen_metadata_normalised_under_log : bool := %s." % b(normalised),
+        "Definition gen_on_record_atomic : bool := %s." % b(on_record_atomic and afn_assign),
         "Definition gen_serde_json_version : string := %s." % coq_str(ver or ""),
         "Definition gen_escape_table : list nat := [%s]." % "; ".join(str(x) for x in esc_table),
         "Definition gen_json_unrecognised : list string := %s." % coq_strs(unrec),
